@@ -46,7 +46,7 @@ Lemma put_accepted : forall p s r,
     s_state s' = ST_BUSY /\ s_put s' = Some p /\ q_rcfg (s_p s') = Some r /\
     sc_mode (q_conf (s_p s')) = (match pr_mode p with Some m => m | None => r_mode r end) /\
     q_closure (s_p s') = (match pr_closure p with Some c => c | None => r_closure r end) /\
-    s_ready s' = 0 /\ s_step s' = s_step s /\ s_queue s' = s_queue s /\ s_seq_count s' = s_seq_count s.
+    s_ready s' = s_ready s /\ s_step s' = s_step s /\ s_queue s' = s_queue s /\ s_seq_count s' = s_seq_count s.
 Proof.
   intros p s r Hst Hn Hr. unfold fs_s in *.
   unfold put_request, bind, get, put, ret, raise, setq, modify.
